@@ -47,7 +47,8 @@ REQUIRED = ["cases", "emitted_frames_compared", "rewrites_checked",
 TIMEOUT = {"quick": 900, "thorough": 7200}
 
 NPORTS = 5
-EXTRA_PORT = 6        # (comes and goes while the switch runs)
+EXTRA_PORT = 0xfeff   # (comes and goes while the switch runs; the highest
+                      #  number a physical port can have)
 DPID = 12
 CFG_BITS = [OA.PC_PORT_DOWN, OA.PC_NO_RECV, OA.PC_NO_RECV_STP, OA.PC_NO_FLOOD,
             OA.PC_NO_FWD, OA.PC_NO_PACKET_IN]
@@ -246,7 +247,7 @@ def run_case (case, rep):
   # takes part in FLOOD and ALL from the next frame on
   try:
     if case.get("plug") in ("add", "add_down") and EXTRA_PORT not in rig.cfg:
-      phy = rig.sw.switch.generate_port(EXTRA_PORT)
+      phy = rig.sw.switch.generate_port(EXTRA_PORT, name="top")
       if case["plug"] == "add_down":
         # the port starts out administratively down (its description says so;
         # the link itself is fine) and is enabled by the port_mod that this
@@ -626,7 +627,7 @@ def gen_case (rng):
   if rng.random() < 0.7:
     actions.append(gen_action(rng, allow_table) if rng.random() < 0.3 else
                    dict(type=0, port=rng.choice([1, 2, 3, OA.OFPP_FLOOD,
-                                                 OA.OFPP_ALL]), max_len=0))
+                                                 OA.OFPP_ALL, EXTRA_PORT]), max_len=0))
   if via in ("flow", "packet_out") and rng.random() < 0.04:
     raw, act = udp_zero_after(rng)
     desc = dict(kind="udp_zero_after", tagged=False)
